@@ -1188,3 +1188,288 @@ Proof. vm_compute. reflexivity. Qed.
 (* the constants the model compares annotation values with are distinct *)
 Lemma Gen_fmt_strategies_distinct : String.eqb fmt_strategy_none fmt_strategy_standard = false.
 Proof. vm_compute. reflexivity. Qed.
+
+(* ---------- the whole filter: FormatFilter.Filter on a document and on a stream ---------- *)
+
+Definition doc_keyed_ok (n : cnode) : bool :=
+  match get_field "kind" n, get_field "apiVersion" n with
+  | Ok (Some k), Ok (Some a) => keyed_ok (cvalue k) (cvalue a) "" n
+  | _, _ => true
+  end.
+
+Lemma find_pair_filter name kvs :
+  find_pair name kvs =
+  match filter (fun kv : cnode * cnode => String.eqb (cvalue (fst kv)) name) kvs with
+  | [] => None
+  | kv :: _ => Some (snd kv)
+  end.
+Proof.
+  induction kvs as [|kv t IH]; cbn; auto.
+  destruct (String.eqb (cvalue (fst kv)) name); auto.
+Qed.
+
+Section Doc.
+  Variable nonstr : string -> bool.
+  Variable srt : sorter.
+  Variables kind api : string.
+
+  (* [x'] is the formatted [x] (at some schema and path) *)
+  Definition fmt_of (x x' : cnode) : Prop :=
+    exists s p, fmt_node nonstr srt kind api s p x = Ok x'.
+
+  (* the sort keeps the relative order of the entries of each key (stable sort, or unique keys) *)
+  Definition keeps_order (n : cnode) : Prop :=
+    forall h kvs, n = CMap h kvs -> forall s p D name,
+      Forall2 (pair_rel nonstr srt kind api s p) kvs D ->
+      Permutation (srt _ (lt_fst less_key) D) D /\
+      filter (fun d => String.eqb (fst d) name) (srt _ (lt_fst less_key) D) =
+      filter (fun d => String.eqb (fst d) name) D.
+
+  Lemma fmt_null_tag n s p n' :
+    fmt_node nonstr srt kind api s p n = Ok n' -> is_null_tag n' = is_null_tag n.
+  Proof.
+    destruct n as [h v|h kvs|h es|h v]; intros H.
+    - cbn in H. inv H. unfold is_null_tag. cbn [chdr].
+      destruct s as [|types format fs el]; cbn; auto.
+      unfold fmt_nonstring. destruct types as [|t [|t2 ts]]; auto.
+      destruct (negb (nonstr v)); auto.
+      destruct (String.eqb t "string" && negb (String.eqb format "int-or-string")).
+      + rewrite fmt_nonstring_tail_tag_null. destruct (style_quoted (h_style h)); reflexivity.
+      + destruct (String.eqb t "boolean" || String.eqb t "integer" || String.eqb t "number"); auto.
+        rewrite fmt_nonstring_tail_tag_null. destruct (style_quoted (h_style h)); reflexivity.
+    - rewrite fmt_map_eq in H. apply bind_ok in H. destruct H as [d [_ H]]. inv H. reflexivity.
+    - rewrite fmt_seq_eq in H. apply bind_ok in H. destruct H as [es' [_ H]].
+      destruct (sort_field kind api p).
+      + apply bind_ok in H. destruct H as [ks [_ H]]. inv H. reflexivity.
+      + inv H. reflexivity.
+    - cbn in H. inv H. reflexivity.
+  Qed.
+
+  Lemma filter_Forall2 {A B} (R : A -> B -> Prop) (qa : A -> bool) (qb : B -> bool) l l' :
+    Forall2 (fun a b => R a b /\ qa a = qb b) l l' -> Forall2 R (filter qa l) (filter qb l').
+  Proof.
+    induction 1 as [|a b t t' [HR Hq] _ IH]; cbn; [constructor|].
+    rewrite Hq. destruct (qb b); auto.
+  Qed.
+
+  Lemma get_field_fmt name n s p n' :
+    keeps_order n ->
+    fmt_node nonstr srt kind api s p n = Ok n' ->
+    match get_field name n with
+    | Ok (Some x) => exists x', get_field name n' = Ok (Some x') /\ fmt_of x x'
+    | r => get_field name n' = r
+    end.
+  Proof.
+    intros KO H. unfold get_field. rewrite (fmt_null_tag _ _ _ _ H).
+    destruct (is_null_tag n); auto.
+    destruct n as [h v|h kvs|h es|h v].
+    - cbn in H. inv H. reflexivity.
+    - rewrite fmt_map_eq in H. apply bind_ok in H. destruct H as [D [HD H]]. inv H.
+      apply fpairs_ok in HD. destruct (KO _ _ eq_refl s p D name HD) as [HP HF].
+      rewrite !find_pair_filter.
+      set (S := srt _ (lt_fst less_key) D) in *.
+      assert (HG : Forall (fun d : string * (cnode * cnode) => cvalue (fst (snd d)) = fst d) D).
+      { eapply Forall2_Forall_r with (Q := fun _ => True); [exact HD| |].
+        - rewrite Forall_forall. auto.
+        - intros kv d _ [R1 [R2 R3]]. rewrite R1. apply (fmt_cvalue _ _ _ _ _ _ _ _ R2). }
+      assert (E1 : filter (fun kv : cnode * cnode => String.eqb (cvalue (fst kv)) name) (map snd S) =
+                   map snd (filter (fun d => String.eqb (fst d) name) S)).
+      { assert (HGS : Forall (fun d : string * (cnode * cnode) => cvalue (fst (snd d)) = fst d) S)
+          by (eapply Forall_perm; [apply Permutation_sym; exact HP|exact HG]).
+        clear - HGS. induction HGS as [|d t Hd _ IH]; cbn; auto.
+        rewrite Hd. destruct (String.eqb (fst d) name); cbn; rewrite IH; reflexivity. }
+      rewrite E1, HF.
+      assert (F2 : Forall2 (pair_rel nonstr srt kind api s p)
+                     (filter (fun kv : cnode * cnode => String.eqb (cvalue (fst kv)) name) kvs)
+                     (filter (fun d => String.eqb (fst d) name) D)).
+      { apply filter_Forall2. eapply Forall2_and_Forall with (Q := fun _ => True); [exact HD| |].
+        - rewrite Forall_forall. auto.
+        - intros kv d _ R. split; auto. destruct R as [R1 _]. rewrite R1. reflexivity. }
+      destruct F2 as [|kv d t t' [R1 [R2 R3]] _]; cbn; auto.
+      eexists. split; [reflexivity|]. eexists. eexists. exact R3.
+    - rewrite fmt_seq_eq in H. apply bind_ok in H. destruct H as [es' [_ H]].
+      destruct (sort_field kind api p).
+      + apply bind_ok in H. destruct H as [ks [_ H]]. inv H. reflexivity.
+      + inv H. reflexivity.
+    - cbn in H. inv H. reflexivity.
+  Qed.
+End Doc.
+
+Lemma find_pair_in name kvs x : find_pair name kvs = Some x -> exists kv, In kv kvs /\ snd kv = x.
+Proof.
+  induction kvs as [|kv t IH]; cbn; [discriminate|].
+  destruct (String.eqb (cvalue (fst kv)) name).
+  - intros H; inv H. exists kv. auto.
+  - intros H. destruct (IH H) as [kv' [Hin E]]. exists kv'. auto.
+Qed.
+
+Section DocIdem.
+  Variable nonstr : string -> bool.
+  Variable srt : sorter.
+  Variable good : cnode -> Prop.
+  Hypothesis good_keeps : forall kind api n, good n -> keeps_order nonstr srt kind api n.
+  Hypothesis good_sub : forall h kvs, good (CMap h kvs) -> forall kv, In kv kvs -> good (snd kv).
+  Hypothesis idem : forall kind api n s p n', good n -> keyed_ok kind api p n = true ->
+    fmt_node nonstr srt kind api s p n = Ok n' -> fmt_node nonstr srt kind api s p n' = Ok n'.
+
+  Lemma get_field_good name n x : good n -> get_field name n = Ok (Some x) -> good x.
+  Proof.
+    unfold get_field. destruct (is_null_tag n); [discriminate|].
+    destruct n as [h v|h kvs|h es|h v]; try discriminate.
+    intros G H. inv H. destruct (find_pair_in _ _ _ H1) as [kv [Hin E]]. subst x. eapply good_sub; eauto.
+  Qed.
+
+  Lemma lookup_fields_fmt kind api : forall ps n n',
+    good n -> fmt_of nonstr srt kind api n n' ->
+    match lookup_fields ps n with
+    | Ok (Some x) => exists x', lookup_fields ps n' = Ok (Some x') /\ fmt_of nonstr srt kind api x x'
+    | r => lookup_fields ps n' = r
+    end.
+  Proof.
+    induction ps as [|q ps IH]; intros n n' G [s [p F]]; cbn [lookup_fields].
+    - eexists. split; [reflexivity|]. exists s, p. exact F.
+    - pose proof (get_field_fmt nonstr srt kind api q n s p n' (good_keeps kind api n G) F) as GF.
+      destruct (get_field q n) as [[x|]| | |] eqn:E; cbn [bind].
+      + destruct GF as [x' [E' FO]]. rewrite E'. cbn [bind].
+        apply IH; auto. eapply get_field_good; eauto.
+      + rewrite GF. reflexivity.
+      + rewrite GF. reflexivity.
+      + rewrite GF. reflexivity.
+      + rewrite GF. reflexivity.
+  Qed.
+
+  Lemma fmt_of_cvalue kind api x x' : fmt_of nonstr srt kind api x x' -> cvalue x' = cvalue x.
+  Proof. intros [s [p F]]. eapply fmt_cvalue; eauto. Qed.
+
+  Lemma get_strategy_fmt kind api n n' :
+    good n -> fmt_of nonstr srt kind api n n' -> get_strategy n' = get_strategy n.
+  Proof.
+    intros G F. unfold get_strategy.
+    pose proof (lookup_fields_fmt kind api ["metadata"; "annotations"; fmt_annotation] n n' G F) as L.
+    destruct (lookup_fields ["metadata"; "annotations"; fmt_annotation] n) as [[x|]| | |].
+    - destruct L as [x' [E FO]]. rewrite E. cbn [bind]. rewrite (fmt_of_cvalue _ _ _ _ FO). reflexivity.
+    - rewrite L. reflexivity.
+    - rewrite L. reflexivity.
+    - rewrite L. reflexivity.
+    - rewrite L. reflexivity.
+  Qed.
+
+  Theorem filter_doc_idem s n n' :
+    good n -> doc_keyed_ok n = true ->
+    filter_doc nonstr srt s n = Ok n' -> filter_doc nonstr srt s n' = Ok n'.
+  Proof.
+    intros G DK H. unfold filter_doc in H.
+    destruct (get_strategy n) as [st| | |] eqn:ES; cbn [bind] in H; try discriminate.
+    destruct st.
+    2:{ inv H. unfold filter_doc. rewrite ES. reflexivity. }
+    destruct (get_field "kind" n) as [[kn|]| | |] eqn:EK; cbn [bind] in H; try discriminate.
+    2:{ inv H. unfold filter_doc. rewrite ES. cbn [bind]. rewrite EK. reflexivity. }
+    destruct (get_field "apiVersion" n) as [[an|]| | |] eqn:EA; cbn [bind] in H; try discriminate.
+    2:{ inv H. unfold filter_doc. rewrite ES. cbn [bind]. rewrite EK. cbn [bind]. rewrite EA. reflexivity. }
+    set (kind := cvalue kn) in *. set (api := cvalue an) in *.
+    assert (FO : fmt_of nonstr srt kind api n n') by (exists s, ""; exact H).
+    unfold filter_doc. rewrite (get_strategy_fmt kind api n n' G FO), ES. cbn [bind].
+    pose proof (get_field_fmt nonstr srt kind api "kind" n s "" n' (good_keeps kind api n G) H) as GK.
+    rewrite EK in GK. destruct GK as [kn' [EK' FK]]. rewrite EK'. cbn [bind].
+    pose proof (get_field_fmt nonstr srt kind api "apiVersion" n s "" n' (good_keeps kind api n G) H) as GA.
+    rewrite EA in GA. destruct GA as [an' [EA' FA]]. rewrite EA'. cbn [bind].
+    rewrite (fmt_of_cvalue _ _ _ _ FK), (fmt_of_cvalue _ _ _ _ FA).
+    eapply idem; eauto.
+    unfold doc_keyed_ok in DK. rewrite EK, EA in DK. exact DK.
+  Qed.
+
+  Theorem filter_stream_idem docs outs :
+    Forall (fun d => good (fst d) /\ doc_keyed_ok (fst d) = true) docs ->
+    filter_stream nonstr srt docs = Ok outs ->
+    filter_stream nonstr srt (combine outs (map snd docs)) = Ok outs.
+  Proof.
+    unfold filter_stream. intros HG H. apply mapM_ok in H. apply mapM_ok.
+    induction H as [|d o t t' Hd _ IH]; cbn; [constructor|].
+    inv HG. destruct H1 as [G K]. constructor; auto. cbn. eapply filter_doc_idem; eauto.
+  Qed.
+End DocIdem.
+
+(* stable sort: every node *)
+Theorem filter_stream_idem_isort nonstr docs outs :
+  Forall (fun d => doc_keyed_ok (fst d) = true) docs ->
+  filter_stream nonstr isort docs = Ok outs ->
+  filter_stream nonstr isort (combine outs (map snd docs)) = Ok outs.
+Proof.
+  intros HG. apply (filter_stream_idem nonstr isort (fun _ => True)).
+  - intros kind api n _ h kvs _ s p D name HD. unfold isort. split.
+    + apply isort_perm.
+    + apply (isort_filter less_key less_key_strict_total).
+  - auto.
+  - intros kind api n s p n' _. apply fmt_idem_isort.
+  - rewrite Forall_forall in *. intros d Hin. split; auto.
+Qed.
+
+(* any (S1) sort: documents with unique keys *)
+Theorem filter_stream_idem_S1 nonstr srt docs outs : S1 srt ->
+  Forall (fun d => wf_keys (fst d) = true /\ doc_keyed_ok (fst d) = true) docs ->
+  filter_stream nonstr srt docs = Ok outs ->
+  filter_stream nonstr srt (combine outs (map snd docs)) = Ok outs.
+Proof.
+  intros HS1 HG. apply (filter_stream_idem nonstr srt (fun n => wf_keys n = true)).
+  - intros kind api n W h kvs -> s p D name HD.
+    destruct (HS1 _ less_key less_key_strict_total D) as [HP _]. split; [exact HP|].
+    apply perm_filter_unique; [|exact HP].
+    apply wf_keys_map in W. destruct W as [Nd _].
+    assert (map fst D = key_values kvs).
+    { clear - HD. unfold key_values. induction HD as [|kv d t D' [R1 _] _ IH]; cbn; congruence. }
+    rewrite H. exact Nd.
+  - intros h kvs W kv Hin. apply wf_keys_map in W. destruct W as [_ W].
+    rewrite Forall_forall in W. apply (W kv Hin).
+  - intros kind api n s p n' W K. apply fmt_idem_S1; auto.
+  - exact HG.
+Qed.
+
+(* ---------- independence of the sort algorithm when all sort keys are distinct ---------- *)
+
+Lemma NoDup_fst_combine {B} (K : list string) (E : list B) : NoDup K -> NoDup (map fst (combine K E)).
+Proof.
+  intros H. revert E. induction H as [|k K Hn Hd IH]; intros [|e E]; cbn; try constructor; auto.
+  intros Hin. apply Hn. clear - Hin. revert E Hin.
+  induction K as [|k' K IH]; intros [|e E] Hin; cbn in *; try contradiction.
+  destruct Hin as [->|Hin]; [left; auto|right; eapply IH; eauto].
+Qed.
+
+Section SortIndependent.
+  Variable nonstr : string -> bool.
+  Variables srt srt' : sorter.
+  Variables kind api : string.
+  Hypothesis H1 : S1 srt.
+  Hypothesis H2 : S1 srt'.
+
+  Theorem fmt_sort_independent : forall n s p,
+    distinct_sortkeys kind api p n = true ->
+    fmt_node nonstr srt kind api s p n = fmt_node nonstr srt' kind api s p n.
+  Proof.
+    induction n as [h v|h v|h kvs IH|h es IH] using cnode_ind'; intros s p HD; auto.
+    - rewrite !fmt_map_eq. cbn [distinct_sortkeys] in HD. apply andb_true_iff in HD. destruct HD as [Nd HD].
+      assert (EP : fmt_pairs nonstr srt kind api s p kvs = fmt_pairs nonstr srt' kind api s p kvs).
+      { clear Nd. induction kvs as [|kv t IHt]; cbn [fmt_pairs]; auto.
+        inversion IH as [|? ? [I1 I2] IH']; subst.
+        apply andb_true_iff in HD. destruct HD as [HD HD3]. apply andb_true_iff in HD. destruct HD as [HD1 HD2].
+        rewrite (I1 SNil p HD1), (I2 _ _ HD2), (IHt IH' HD3). reflexivity. }
+      rewrite EP. destruct (fmt_pairs nonstr srt' kind api s p kvs) as [D| | |] eqn:ED; auto.
+      cbn [bind]. f_equal. f_equal. f_equal.
+      apply (S1_unique srt srt' H1 H2 _ less_key less_key_strict_total).
+      apply fpairs_ok in ED.
+      assert (map fst D = key_values kvs).
+      { clear - ED. unfold key_values. induction ED as [|kv d t D' [R1 _] _ IHd]; cbn; congruence. }
+      rewrite H. apply nodup_strs_NoDup. exact Nd.
+    - rewrite !fmt_seq_eq. cbn [distinct_sortkeys] in HD. apply andb_true_iff in HD. destruct HD as [HK HD].
+      assert (EE : forall s0, fmt_elems nonstr srt kind api s0 p es = fmt_elems nonstr srt' kind api s0 p es).
+      { intros s0. clear HK. induction es as [|e t IHt]; cbn [fmt_elems]; auto.
+        inversion IH as [|? ? I1 IH']; subst.
+        apply andb_true_iff in HD. destruct HD as [HD1 HD2].
+        rewrite (I1 _ _ HD1), (IHt IH' HD2). reflexivity. }
+      rewrite EE. destruct (fmt_elems nonstr srt' kind api (sch_elems s) p es) as [E| | |]; auto.
+      cbn [bind]. destruct (sort_field kind api p) as [f|]; auto.
+      destruct (seq_keys f es) as [K| | |]; auto.
+      cbn [bind]. f_equal. f_equal. f_equal.
+      apply (S1_unique srt srt' H1 H2 _ String.ltb ltb_strict_total).
+      apply NoDup_fst_combine. apply nodup_strs_NoDup. exact HK.
+  Qed.
+End SortIndependent.
